@@ -500,6 +500,7 @@ type vxC04SessCase struct {
 	NoSkip   bool              `json:"no_skip"` // cfg.DisableSkipMetadata
 	Codec    string            `json:"codec"`
 	Consumer int               `json:"consumer"`
+	Batch    bool              `json:"batch,omitempty"` // the statement travels as a one-statement BATCH (a conditional batch is answered with rows)
 }
 
 type vxTracer struct{ ids [][]byte }
@@ -519,7 +520,8 @@ func TestVxC04Session(t *testing.T) {
 				}
 			}
 			return &vxC04SessCase{Resp: r, Prepared: rapid.Bool().Draw(t, "prepared"), NoSkip: rapid.IntRange(0, 3).Draw(t, "noskip") == 0,
-				Codec: rapid.SampledFrom([]string{"", "", "snappy", "lz4"}).Draw(t, "codec"), Consumer: rapid.IntRange(0, 3).Draw(t, "consumer")}
+				Codec: rapid.SampledFrom([]string{"", "", "snappy", "lz4"}).Draw(t, "codec"), Consumer: rapid.IntRange(0, 3).Draw(t, "consumer"),
+				Batch: rapid.IntRange(0, 4).Draw(t, "batch") == 0}
 		},
 		New: func() interface{} { return &vxC04SessCase{} },
 		Run: func(ci interface{}, k *vstats.Case) error {
@@ -552,7 +554,7 @@ func TestVxC04Session(t *testing.T) {
 						rm = &cqlspec.Metadata{Columns: r.Meta.Columns, GlobalSpec: r.Meta.GlobalSpec, Keyspace: r.Meta.Keyspace, Table: r.Meta.Table}
 					}
 					rc.Reply(&cqlspec.Response{Kind: "PREPARED", PreparedIDHex: "0102", Meta: &cqlspec.Metadata{Columns: []cqlspec.Column{}}, ResultMeta: rm})
-				case "EXECUTE", "QUERY":
+				case "EXECUTE", "QUERY", "BATCH":
 					out := *r
 					if r.Kind == "ROWS" && rc.Req.Kind == "EXECUTE" && rc.Req.Params.SkipMeta {
 						m := *r.Meta
@@ -585,7 +587,19 @@ func TestVxC04Session(t *testing.T) {
 			if manual {
 				q = q.PageState(nil)
 			}
-			iter := q.Iter()
+			var iter *Iter
+			if c.Batch && r.Version >= 2 && !manual {
+				// Session.executeBatch is what ExecuteBatch / ExecuteBatchCAS / MapExecuteBatchCAS consume
+				k.Class("as-batch")
+				b := s.NewBatch(LoggedBatch)
+				b.Query(stmt)
+				if r.TraceHex != "" {
+					b.Trace(tr)
+				}
+				iter = s.executeBatch(b)
+			} else {
+				iter = q.Iter()
+			}
 			nt := r.TraceHex != "" || r.Warnings != nil || r.HasPayload || comp != nil
 			defer func() {
 				if skipped {
